@@ -275,6 +275,7 @@ static std::vector<vc::Point> sampleOnce(Setup &S, ob::StateSamplerPtr &smp, int
         // a sample sitting exactly on a face of the ambient box was clamped there by enforceBounds(): the bounds cut the
         // manifold at that place (unbounded plane), which is outside the property's quantifier
         bool onFace = false;
+        if (S.manifold == "plane")  // the only manifold that reaches the ambient box; on the compact ones a state on a face IS off the manifold
         {
             const Vx &v = *s->as<ob::ConstrainedStateSpace::StateType>();
             for (int i = 0; i < v.size(); ++i)
@@ -376,9 +377,9 @@ struct AtlasSys
     std::vector<std::string> alphabet;
     AtlasSys(const std::string &m, const std::string &k, int p, int l, bool thorough) : manifold(m), kind(k), pi(p), L(l)
     {
-        alphabet = {"U0", "U1", "N0", "N2", "I01", "I21", "G02", "G13", "G30", "C"};
+        alphabet = {"U0", "U1", "N0", "N2", "M0b", "M2c", "I01", "I21", "G02", "G13", "G30", "C"};
         if (thorough)
-            for (const char *x : {"U2", "I32", "G21", "S1"})
+            for (const char *x : {"U2", "I32", "G21", "S1", "M1a"})
                 alphabet.push_back(x);
     }
     std::string replayBase() const
@@ -415,6 +416,13 @@ struct AtlasSys
             {
                 uint64_t obs = 0;
                 sampleOnce(S, smp, 1, op[1] - '0', 0.5, {}, fail, &obs);
+            }
+            else if (op[0] == 'M')
+            {
+                // sampleUniformNear with a distance far beyond the curvature radius: tangent-space samples miss the manifold, the
+                // projection attempts run out and the sampler's fallback path is taken
+                uint64_t obs = 0;
+                sampleOnce(S, smp, 1, op[1] - '0', op[2] == 'a' ? 4.0 : op[2] == 'b' ? 8.0 : 16.0, {}, fail, &obs);
             }
             else if (op[0] == 'I')
             {
@@ -498,6 +506,40 @@ static void runAtlas(const std::string &manifold, const std::string &kind, const
             }
         frontier.swap(next);
     }
+    // samplers on a freshly anchored atlas: every mode x centres x distances (up to far beyond the curvature radius) x <= 1 deviation
+    // among the first 8 (thorough 16) draws
+    for (int mode = 0; mode < 3; ++mode)
+        for (int centre : {0, 2})
+            for (double dist : {0.0, 0.5, 4.0, 16.0})
+            {
+                if (mode == 0 && (centre != 0 || dist != 0.0))
+                    continue;
+                auto run = [&](const std::map<size_t, int> &dev) {
+                    Setup S(manifold, kind, 0, 6);
+                    if (S.lat.size() < 4)
+                        return std::vector<vc::Point>{};
+                    S.css->as<ob::AtlasStateSpace>()->anchorChart(S.lat[0]);
+                    auto smp = S.css->allocStateSampler();
+                    std::string rj = "{" + sys.replayBase() + ",\"op\":\"sample\",\"mode\":" + std::to_string(mode) + ",\"centre\":" + std::to_string(centre) + ",\"dist\":" + vf::jnum(dist) + ",\"dev\":" + vc::devJson(dev) + "}";
+                    uint64_t obs = 0;
+                    auto tr = sampleOnce(S, smp, mode, centre, dist, dev, [&](const std::string &k, const std::string &w) { rep.fail(k, w, rj); }, &obs);
+                    rep.evaluations++;
+                    rep.transitions++;
+                    rep.outcomes.insert(obs);
+                    vf::Hash h;
+                    h.adds(rj);
+                    if (!dev.empty())
+                        rep.nontrivial.insert(h.h);
+                    return tr;
+                };
+                vc::DBE dbe;
+                dbe.D = 1;
+                dbe.N = a.thorough() ? 16 : 8;
+                dbe.expired = [&] { return a.expired(); };
+                dbe.explore(run);
+                if (dbe.cut)
+                    rep.exhaustive = false;
+            }
     // canon-on-replay (the chart list is the state: the same history must rebuild the same atlas)
     {
         std::vector<std::string> h = {"U0", "G02", "N2"};
@@ -645,8 +687,10 @@ int main(int argc, char **argv)
             vf::Report r;
             if (op == "plan")
                 runPlanner(kind, a, r);
-            else
+            else if (kind == "projected")
                 runProjected(m, a, r);
+            else
+                runAtlas(m, kind, a, r);  // op "sample" on an atlas / tangent bundle: re-run the (cheap) job that contains the case
             for (auto &f : r.failures)
                 fail(f.key, f.what);
         }
